@@ -14,7 +14,16 @@ type vRandScript struct{ codes, ids int }
 func (r *vRandScript) Read(p []byte) (int, error) {
 	if len(p) == 8 {
 		r.codes++
-		copy(p, vBytesRaw(fmt.Sprintf("joincode%d", r.codes), 8))
+		name := fmt.Sprintf("joincode%d", r.codes)
+		if vHas(name) {
+			copy(p, vBytesRaw(name, 8))
+		} else {
+			// beyond the draws of the symbolic path (the native clock differs from the symbolic one): fresh codes
+			for i := range p {
+				p[i] = byte(r.codes>>(5*uint(i))) & 31
+			}
+			p[7] = 31
+		}
 		return 8, nil
 	}
 	r.ids++
@@ -137,4 +146,4 @@ func (st *Store) alive(s Session, t time.Time) bool {
 }
 
 func H_C14_store()      { vC14Run(4) }
-func H_C14_store_deep() { vC14Run(6) }
+func H_C14_store_deep() { vC14Run(5) }
